@@ -1973,6 +1973,14 @@ impl TextDecorator for TrivialDecorator {
         "".to_string()
     }
 
+    fn decorate_superscript_start(&self) -> (String, Self::Annotation) {
+        ("".to_string(), ())
+    }
+
+    fn decorate_superscript_end(&self) -> String {
+        "".to_string()
+    }
+
     fn make_subblock_decorator(&self) -> Self {
         TrivialDecorator::new()
     }
